@@ -141,6 +141,10 @@ pub fn gen_c07(tier: &str, seed: u64, out: &mut dyn FnMut(Value)) {
     // lost or counted twice), with metadata and high severities
     let cfg = Cfg { max_rules: 6, dep_prob: (1, 2), match_on: false, err_ops: false, n_events: 8, ..Cfg::default() };
     gen_random(&mut rng, &cfg, if tier == "thorough" { 40000 } else { 2400 }, "rule sets with dependencies among reported rules", (0, 1), out);
+    // the same with match-on sections: a rule evaluated only because another rule uses it, on an event its own
+    // section does not admit, contributes nothing to the result
+    let cfg = Cfg { max_rules: 6, dep_prob: (1, 2), match_on: true, err_ops: false, n_events: 8, ..Cfg::default() };
+    gen_random(&mut rng, &cfg, if tier == "thorough" { 40000 } else { 2400 }, "dependencies whose match-on excludes the event", (0, 1), out);
 }
 
 /// C10: any subset of operands made to fail at every position; DAG levels
